@@ -24,7 +24,7 @@ VARIANTS = ("plain", "asan")
 EVAL_RUNS = True
 RULE = ("every golden program and generated programs (macros, repetitions, several segments, PHASE, padding, lines with "
         "more code than one listing line) with -L, one debug format (-g MAP 60%, NOICE 20%, ATMEL 20%: line entries of all three, "
-        "symbol values of MAP and NoICE, per-unit code words of the Atmel object file) and one share format (-a/-c/-p), list radix from {16,16,16,10,8,2}, "
+        "symbol values of MAP and NoICE, per-unit code words of the Atmel object file) and one share format (-a/-c/-p), list radix from {16,16,16,10,8,2,any of 2..36 twice}, "
         "x forced extra passes {0,1} x optional predecessor file in the same process. non-trivial = the run has >=1 "
         "multi-line code dump, >=1 PHASE or >=2 segments, or runs under a perturbed schedule/history; distinct by "
         "scenario content hash")
@@ -119,12 +119,14 @@ def parse_listing(lst, radix):
         if m:
             toks, field = code_field_tokens(m.group(4))
             vals = [to_radix(t.decode("latin1"), radix) for t in toks]
-            if toks and all(v is not None for v in vals) and not field.startswith((b"=", b"(", b"[", b" ")):
+            # the alternative column holds =value, (MACRO), [section] ... or the bare words ALL / NONE (effective MACEXP
+            # setting), which are also numbers in a radix above 21 / 24
+            if toks and all(v is not None for v in vals) and not field.startswith((b"=", b"(", b"[", b" ")) and field.strip() not in (b"ALL", b"NONE"):
                 addr = to_radix(m.group(2).decode("latin1"), radix)
                 if addr is None:
                     cur = None
                     continue
-                cur = [int(m.group(1)), addr, [(len(t), v) for t, v in zip(toks, vals)], field]
+                cur = [int(m.group(1)), addr, [(len(t), v) for t, v in zip(toks, vals)], field, []]
                 out.append(cur)
             else:
                 cur = None
@@ -134,6 +136,8 @@ def parse_listing(lst, radix):
             toks, field = code_field_tokens(m.group(3))
             vals = [to_radix(t.decode("latin1"), radix) for t in toks]
             if toks and all(v is not None for v in vals) and not field.startswith(b" "):
+                # a continuation line is a code-bearing line too: remember which item it starts with and the address it shows
+                cur[4].append((len(cur[2]), to_radix(m.group(1).decode("latin1"), radix)))
                 cur[2] += [(len(t), v) for t, v in zip(toks, vals)]
                 continue
         if not m:
@@ -187,6 +191,8 @@ def parse_listing_symbols(lst, radix):
     body = txt[i:j if j > 0 else len(txt)]
     for m in RE_SYM.finditer(body):
         out[m.group(2)] = (m.group(3), m.group(4))
+        # the same name may exist globally and in sections: all of its values
+        out.setdefault(("all", m.group(2)), []).append((m.group(3), m.group(4)))
     return out
 
 
@@ -240,7 +246,7 @@ def parse_noice(noi):
             elif w[0] == "ENDFILE":
                 fil = None
             elif w[0] == "DEFINE" and len(w) >= 3:
-                defs[w[1]] = int(w[2], 16)
+                defs.setdefault(w[1], []).append(int(w[2], 16))
         except ValueError:
             entries.append((fil, -1, -1))  # unreadable entry: matches nothing
     return entries, defs
@@ -305,7 +311,7 @@ def check_run(r, name, outdir, radix, sharefmt, files_trace, acc, label):
         matched_recs = set()
         ti = 0
         code_recs = [x for x in final if x["raw"] and not x["dp"]]
-        for line, addr, words, field in L:
+        for line, addr, words, field, conts in L:
             if len(words) * 3 > LISTLINESPACE:
                 pass
             got = [v for _, v in words]
@@ -335,6 +341,19 @@ def check_run(r, name, outdir, radix, sharefmt, files_trace, acc, label):
                 break
             ti = found + 1
             matched_recs.add(id(x))
+            items = words_of(x, x["lgran"])
+            for first_item, caddr in conts:
+                nbytes = sum(g for g, _ in items[:first_item])
+                if caddr is None or nbytes % x["gran"]:
+                    continue
+                acc["probes"]["continuation_lines_checked"] = acc["probes"].get("continuation_lines_checked", 0) + 1
+                want_c = (want_addr + nbytes // x["gran"]) & 0xFFFFFFFFFFFFFFFF
+                if caddr not in (want_c, want_c & 0xFFFFFFFF):
+                    vs.append(("C19/listing-continuation-address", "%s: line %d: the continuation line starting with item %d shows address %x, that item is at %x"
+                               % (label, line, first_item, caddr, want_c)))
+                    break
+            if vs:
+                break
             acc["probes"]["listing_lines_matched"] = acc["probes"].get("listing_lines_matched", 0) + 1
             if len(got) > 6:
                 nontrivial = True
@@ -372,8 +391,10 @@ def check_run(r, name, outdir, radix, sharefmt, files_trace, acc, label):
                 vs.append(("C19/noice-line-entry", "%s: NoICE file says line %d of %s starts at %X, no final-pass emission record in CODE matches" % (label, line, fil, addr)))
                 break
         lsyms = parse_listing_symbols(lst, radix) if lst is not None else {}
-        for nm, dv in defs.items():
-            if nm in lsyms and lsyms[nm][1] == "C":
+        for nm, dvs in defs.items():
+            dv = dvs[0]
+            # names defined once only: a name that exists globally and inside sections is listed / defined several times
+            if len(dvs) == 1 and nm in lsyms and len(lsyms[("all", nm)]) == 1 and lsyms[nm][1] == "C":
                 acc["probes"]["symbols_listing_vs_noice"] = acc["probes"].get("symbols_listing_vs_noice", 0) + 1
                 lv = to_radix(lsyms[nm][0], radix)
                 if lv is not None and (lv & 0xFFFFFFFFFFFFFFFF) != dv:
@@ -436,7 +457,7 @@ def check_run(r, name, outdir, radix, sharefmt, files_trace, acc, label):
                 mv = int(val, 16)
             except ValueError:
                 continue
-            if nm in lsyms:
+            if nm in lsyms and len(lsyms[("all", nm)]) == 1:
                 acc["probes"]["symbols_listing_vs_map"] = acc["probes"].get("symbols_listing_vs_map", 0) + 1
                 lv = to_radix(lsyms[nm][0], radix)
                 lh = to_radix(lsyms[nm][0], 16)  # target-specific symbol kinds (e.g. 8051 bit addresses) are always listed in hex
@@ -470,7 +491,7 @@ def plan(tier, seed):
 
 
 def build_scenario(rng, main_name, disk, flags, pred=None):
-    radix = rng.choice([16, 16, 16, 10, 8, 2])
+    radix = rng.choice([16, 16, 16, 10, 8, 2, rng.randint(2, 36), rng.randint(2, 36)])
     sharefmt = rng.choice(["-a", "-c", "-p"])
     extra = rng.choice([0, 0, 1])
     env = {"LANG": "C", "ASL_VERIF_TRACE": "/w/run.trc"}
